@@ -208,6 +208,7 @@ struct Block
     int alloc_id;
     std::size_t bytes;
     std::size_t align;
+    const char* kind;     // "table" for the offset table (allocated through a size_t allocator), else "data"
     unsigned char* raw;   // what free() gets
     unsigned char* user;  // what the container got
     bool live;
@@ -234,7 +235,7 @@ struct Ledger
         junk_seed ^= junk_seed << 17;
         return static_cast<unsigned char>(junk_seed >> 24) | 1;
     }
-    void* allocate(int alloc_id, std::size_t bytes, std::size_t align)
+    void* allocate(int alloc_id, std::size_t bytes, std::size_t align, const char* kind = "data")
     {
         if (fail_countdown == 0)
         {
@@ -254,7 +255,7 @@ struct Ledger
         for (std::size_t i = 0; i < GUARD; ++i) user[-1 - static_cast<std::ptrdiff_t>(i)] = 0xFD;
         for (std::size_t i = 0; i < GUARD; ++i) user[bytes + i] = 0xFD;
         for (std::size_t i = 0; i < bytes; ++i) user[i] = next_junk();
-        blocks.push_back(Block{static_cast<int>(blocks.size()) + 1, alloc_id, bytes, align, raw, user, true});
+        blocks.push_back(Block{static_cast<int>(blocks.size()) + 1, alloc_id, bytes, align, kind, raw, user, true});
         ++n_alloc;
         return user;
     }
@@ -332,7 +333,10 @@ struct Led
     Led(const Led<U, POCCA, POCMA, POCS, AE>& o) noexcept : id(o.id)
     {
     }
-    T* allocate(std::size_t n) { return static_cast<T*>(Ledger::get().allocate(id, n * sizeof(T), alignof(T))); }
+    T* allocate(std::size_t n)
+    {
+        return static_cast<T*>(Ledger::get().allocate(id, n * sizeof(T), alignof(T), std::is_same_v<T, std::size_t> ? "table" : "data"));
+    }
     void deallocate(T* p, std::size_t n) noexcept { Ledger::get().deallocate(id, AE, p, n * sizeof(T)); }
     // select_on_container_copy_construction: ids >= 100 hand out id+1 so that the call is observable
     Led select_on_container_copy_construction() const { return id >= 100 ? Led(id + 1) : *this; }
